@@ -586,21 +586,24 @@ impl<T> DataReaderEntity<T> {
             DestinationOrderQosPolicyKind::ByReceptionTimestamp => self.sample_list.push(sample),
         }
 
-        match self
-            .instance_ownership
-            .iter_mut()
-            .find(|x| x.instance_handle == change_instance_handle)
-        {
-            Some(x) => {
-                if x.last_received_time < reception_timestamp {
-                    x.last_received_time = reception_timestamp;
+        // A dispose or unregister releases the ownership of the instance: only data samples (re)claim it
+        if matches!(change_kind, ChangeKind::Alive | ChangeKind::AliveFiltered) {
+            match self
+                .instance_ownership
+                .iter_mut()
+                .find(|x| x.instance_handle == change_instance_handle)
+            {
+                Some(x) => {
+                    if x.last_received_time < reception_timestamp {
+                        x.last_received_time = reception_timestamp;
+                    }
                 }
+                None => self.instance_ownership.push(InstanceOwnership {
+                    instance_handle: change_instance_handle,
+                    last_received_time: reception_timestamp,
+                    owner_handle: sample_writer_guid,
+                }),
             }
-            None => self.instance_ownership.push(InstanceOwnership {
-                instance_handle: change_instance_handle,
-                last_received_time: reception_timestamp,
-                owner_handle: sample_writer_guid,
-            }),
         }
         Ok(AddChangeResult::Added)
     }
